@@ -63,9 +63,11 @@ int main(int argc,char **argv)
 	if(what=="loopback") {
 		// a real server on the loopback interface, two real nodes each with a local L1 cache and one without, driven through a
 		// pseudo-random history (values with NUL bytes, empty values, 0..6 triggers) against a reference map
-		int port=6100+(getpid()%800);
-		std::vector<std::string> ips(1,"127.0.0.1"); std::vector<int> ports(1,port);
+		int port=6100+2*(getpid()%800);
+		// two servers: generations are per server, so a node-local stamp can only be confused with a server stamp when keys are spread
+		std::vector<std::string> ips(2,"127.0.0.1"); std::vector<int> ports(1,port); ports.push_back(port+1);
 		std::unique_ptr<tcp_cache_service> server(new tcp_cache_service(thread_cache_factory(1000),none,1,"127.0.0.1",port));
+		std::unique_ptr<tcp_cache_service> server2(new tcp_cache_service(thread_cache_factory(1000),none,1,"127.0.0.1",port+1));
 		int rc=0;
 		try {
 			booster::intrusive_ptr<base_cache> node[3];
@@ -78,7 +80,23 @@ int main(int argc,char **argv)
 			#define RND() (rnd^=rnd<<13,rnd^=rnd>>7,rnd^=rnd<<17,rnd)
 			char const *keys[]={"k0","k1","k2","a-much-longer-key-with-some-text-in-it"};
 			char const *trigs[]={"t0","t1","t2","t3","trigger-with-a-long-name","x"};
-			for(int step=0;step<600 && rc==0;step++) {
+			// directed probe first: a node-local L1 stamp must never be mistaken for a server generation.  Two keys on different servers,
+			// the L1 node fills its cache twice, then another node replaces the second key (server generation 1 == number of L1 fills - 1)
+			{
+				tcp_connector probe(ips,ports); std::string ka,kb;
+				for(int i=0;i<100 && (ka.empty()||kb.empty());i++) { std::ostringstream k; k << "probe" << i; if(probe.hash(k.str())==0) { if(ka.empty()) ka=k.str(); } else if(kb.empty()) kb=k.str(); }
+				std::set<std::string> nt; std::string got;
+				for(int round=0;round<4 && rc==0;round++) {
+					std::ostringstream v; v << "v" << round;
+					node[2]->store(ka,"a"+v.str(),nt,time(0)+1000); node[2]->store(kb,"b"+v.str(),nt,time(0)+1000);
+					if(!node[0]->fetch(ka,&got,0,0,0) || got!="a"+v.str()) rc=replay_fail("directed probe: node with L1 returned a replaced value for "+ka+": "+got);
+					if(rc==0 && (!node[0]->fetch(kb,&got,0,0,0) || got!="b"+v.str())) rc=replay_fail("directed probe: node with L1 returned a replaced value for "+kb+": "+got);
+					node[2]->store(kb,"c"+v.str(),nt,time(0)+1000);
+					if(rc==0 && (!node[0]->fetch(kb,&got,0,0,0) || got!="c"+v.str())) rc=replay_fail("directed probe: node with L1 returned a replaced value for "+kb+": "+got);
+				}
+				node[2]->clear();
+			}
+			for(int step=0;step<1500 && rc==0;step++) {
 				int n=RND()%3; std::string key=keys[RND()%4];
 				int op=RND()%10;
 				if(op<4) {
@@ -122,8 +140,8 @@ int main(int argc,char **argv)
 			}
 		}
 		catch(std::exception const &e) { rc=replay_fail(std::string("exception: ")+e.what()); }
-		server->stop(); server.reset();
-		return rc ? rc : replay_ok("600-step history on 3 nodes + 2000 hashed keys");
+		server->stop(); server.reset(); server2->stop(); server2.reset();
+		return rc ? rc : replay_ok("1500-step history, 3 nodes, 2 servers + 2000 hashed keys");
 	}
 	return 2;
 }
